@@ -1,8 +1,13 @@
 """C07 -- finite-difference operators are the stated-order derivative at every grid point.
 
-Decided statically (proof level for the weights): exact rational stencil extraction and moment
-conditions; dispatch table; affine segment analysis of the three boundary splices with the
-grid size N symbolic; axis/permutation rules; tensor maps."""
+Decided statically (proof level for the weights) on a partial evaluation of finitedifference.py
+(aurelsa.fdpe: tables, closures, generators, dispatch loops are executed; the field, the grid
+size N and the parameter table stay symbolic): every stencil function evaluates to an exact
+rational linear form on which the moment conditions are discharged; the constructor is
+evaluated for every order (stencil trio, mask_len, normalisation of unsupported orders) and d3
+for every boundary mode; the three boundary splices are affine segment arithmetic with N
+symbolic; axis/permutation rules and tensor maps are equalities of the evaluated terms; the
+operators must be branch-free on their data."""
 from __future__ import annotations
 
 import ast
@@ -517,7 +522,8 @@ def run(rep):
         "linear form and the p+1 moment conditions (unique solution = the standard weights, "
         "exact on polynomials of degree <= p) are discharged in Fraction arithmetic; the "
         "order dispatch, the three boundary splices (affine index arithmetic with N symbolic), "
-        "the axis permutations and the tensor maps are rule instances over the syntax tree. "
+        "the axis permutations and the tensor maps are rule instances over the terms obtained by "
+        "partial evaluation of the module (helpers, tables, generators executed). "
         "Floating-point round-off is not decided.")
     rep.trusted_base = ["CPython ast, fractions", "aurelsa.exact (affine/linear forms)",
                         "numpy slicing/concatenate/transpose semantics as modelled"]
